@@ -28,8 +28,12 @@ This module ties the model to the real server over TCP:
   sandbox   `os`, `io`, `loadfile`, … must be nil / raise; SAVE-like stubs must not touch the disk.
   atomic    writers running a two-INCR script against readers doing MGET: the two counters never differ.
 
-Never sent: non-terminating scripts (no time limit exists: finding from reading, DESIGN row 12), SHUTDOWN,
-DEBUG, SLEEP, REPLICAOF, CLIENT PAUSE/KILL, CONFIG SET.
+  time-limit  ONLY when the source installs a run-time limit (Gen.luaScriptTimeLimit > 0, re-read on every run): non-terminating
+            scripts (plain, after writes, with pcall, in coroutines, by EVALSHA), each on a dedicated server: error reply within
+            the limit + slack, earlier effects in place, server alive and serving; a long finite script is undisturbed.
+
+Never sent: non-terminating scripts while NO time limit exists (then the finding is confirmed from the source only, DESIGN
+row 12), SHUTDOWN, DEBUG, SLEEP, REPLICAOF, CLIENT PAUSE/KILL, CONFIG SET.
 """
 import hashlib
 import os
@@ -241,6 +245,8 @@ def load_findings():
     if os.path.exists(PENDING):
         have = {f["id"] for f in fs}
         for f in json.load(open(PENDING)):
+            if f.get("property") != PID or "match" not in f:
+                continue            # notes for other properties' findings (fixed_when ...) are not exemptions of this check
             if f["id"] in ASSUME_FIXED:
                 continue
             if f["id"] in have:
@@ -1888,6 +1894,103 @@ def layer_atomic(ck, n_writers=3, n_scripts=150):
         srv.stop()
 
 
+LOOP_SCRIPTS = [
+    # (tag, source, must an error come back?)  — sent ONLY when the source installs a run-time limit (Gen.luaScriptTimeLimit > 0)
+    ("plain-loop", "while true do end", True),
+    ("write-then-loop", "redis.call('SET','done','1') redis.call('RPUSH','q','a','b') while true do end", True),
+    ("calls-in-loop", "while true do redis.call('INCR','n') end", True),
+    ("pcall-inner", "pcall(function() while true do end end) return 'escaped'", True),
+    ("pcall-loop", "while true do pcall(function() while true do end end) end", True),
+    ("coroutine", "local co = coroutine.wrap(function() while true do end end) co()", True),
+    ("coroutine-pcall-loop", "local co = coroutine.wrap(function() while true do pcall(function() while true do end end) end end) co()", True),
+    ("string-work-loop", "local s = '' while true do s = string.rep('x', 10) end", True),
+    ("evalsha-loop", "while true do end -- by hash", True),
+    ("finite-long", "local x = 0 for i = 1, 20000000 do x = x + i end return x", False),
+]
+
+
+def layer_time_limit(ck):
+    """scripts that do not terminate, each on a dedicated server: an error reply within the limit (+ slack), the effects of the
+    calls made before in place, the server alive and serving other connections and further scripts afterwards"""
+    rep = ck.rep
+    limit_ms = ck.facts.get("time_limit")
+    rep.extra["script_time_limit_ms"] = limit_ms
+    if not limit_ms:
+        # nothing bounds a script: never send one that does not terminate; the finding is confirmed from the source
+        if limit_ms == 0 and not ck.note_known("static:no-script-time-limit", {"script": "while true do end (never sent)"}):
+            ck.fail("time-limit", "nothing bounds a script's run time: LuaEngine::eval installs no count hook, so EVAL \"while true do end\" 0 "
+                    "wedges the only command thread for ever (input identified from the source; it is not sent to a server without a limit)",
+                    {"layer": "time-limit", "script": "while true do end", "sent": False, "Gen.luaScriptTimeLimit": 0})
+        return
+    limit = limit_ms / 1000.0
+    slack = 4.0
+    results = []
+
+    def run(tag, src, must_fail):
+        out = {"case": tag, "script": src, "limit_s": limit}
+        srv = Server("c12l")
+        try:
+            c, c2 = srv.client(timeout=limit + slack + 5), srv.client()
+            c.cmd("SELECT", "3")
+            c2.cmd("SELECT", "3")
+            t0 = time.time()
+            try:
+                if tag == "evalsha-loop":
+                    sha = c.cmd("SCRIPT", "LOAD", src)[1]
+                    t0 = time.time()
+                    got = c.cmd("EVALSHA", sha, "0", timeout=limit + slack)
+                else:
+                    got = c.cmd("EVAL", src, "0", timeout=limit + slack)
+            except (TimeoutError, Closed, ProtocolError, OSError) as e:
+                got = ("no-reply", type(e).__name__)
+            out["seconds"] = round(time.time() - t0, 2)
+            out["reply"] = str(got)[:200]
+            out["server_alive"] = srv.alive()
+            try:
+                out["other_connection"] = str(c2.cmd("PING", timeout=3.0))
+                out["done"], out["q"], out["n"] = str(c2.cmd("GET", "done")), str(c2.cmd("LRANGE", "q", "0", "-1")), c2.cmd("GET", "n")
+                out["next_script_same_connection"] = str(c.cmd("EVAL", "return redis.call('INCR','after')", "0", timeout=3.0)) if got[0] != "no-reply" else "-"
+            except (TimeoutError, Closed, ProtocolError, OSError) as e:
+                out["other_connection"] = "not served: " + type(e).__name__
+            bad = []
+            if must_fail:
+                if got[0] != "e":
+                    bad.append("no error reply within the limit + %.0f s" % slack)
+                elif out["seconds"] < limit - 0.5:
+                    bad.append("ended before the limit")
+            elif got[0] != "i":
+                bad.append("a finite script under the limit was disturbed")
+            if not out["server_alive"] or out.get("other_connection") != "('s', b'PONG')":
+                bad.append("the server does not serve other connections afterwards")
+            if got[0] != "no-reply" and out.get("next_script_same_connection") != "('i', 1)":
+                bad.append("the next script on the same connection did not run normally")
+            if tag == "write-then-loop" and (out.get("done") != "('b', b'1')" or out.get("q") != "('a', [('b', b'a'), ('b', b'b')])"):
+                bad.append("the effects of the calls completed before the limit did not persist")
+            if tag == "calls-in-loop" and not (isinstance(out.get("n"), tuple) and out["n"][0] == "b" and int(out["n"][1]) > 0):
+                bad.append("the effects of the calls completed before the limit did not persist")
+            out["n"] = str(out.get("n"))
+            out["bad"] = bad
+        except Exception as e:      # noqa
+            out["bad"] = ["harness error: %r" % e]
+        finally:
+            srv.stop()
+        results.append(out)
+    ts = [threading.Thread(target=run, args=x) for x in LOOP_SCRIPTS]
+    for t in ts:
+        t.start()
+    for t in ts:
+        t.join(limit + slack + 30)
+    for out in sorted(results, key=lambda o: o["case"]):
+        rep.evaluations += 1
+        rep.count("time-limit." + out["case"])
+        rep.nontrivial(("time-limit", out["case"], not out["bad"]))
+        if out["bad"]:
+            ck.fail("time-limit", "%s: %s" % (out["case"], "; ".join(out["bad"])), dict(out, layer="time-limit"))
+    if len(results) != len(LOOP_SCRIPTS):
+        ck.fail("time-limit", "a time-limit case did not finish (server wedged?)", {"finished": [o["case"] for o in results]})
+    rep.extra["time_limit_cases"] = {o["case"]: o.get("seconds") for o in results}
+
+
 def layer_crash_witness(ck):
     """the one known way to take the server down from a script (a script-only command): replayed on a throw-away server"""
     f = ck.findings.get("crash:bitcount-empty")
@@ -1952,7 +2055,7 @@ def main(tier, seed):
         "error replies are compared as 'an error' (wording ignored; a changed error class is reported once as a finding)",
         "commands with random results (SPOP, SRANDMEMBER, RANDOMKEY), clock-dependent replies (TIME, XADD *, LASTSAVE) and INFO are left out of the twin comparison; TTL/PTTL through a window",
         "NaN / infinite return values and error frames nested in array replies are not modelled (no data command produces the latter)",
-        "non-terminating scripts are never sent: the absence of any run-time bound is confirmed from the source (Gen.luaScriptTimeLimit), not dynamically",
+        "non-terminating scripts are sent only when the source installs a run-time limit (Gen.luaScriptTimeLimit > 0), and then only to dedicated server instances; without a limit its absence is confirmed from the source, not dynamically",
         "SHUTDOWN and DEBUG are never sent, not even inside scripts: their refusal rests on the regenerated table theorem only",
         "integers pass through a Lua 5.1 double in both the standard table and the code (precision above 2^53 is lost by the standard conversion itself)",
     ]
@@ -1973,15 +2076,14 @@ def main(tier, seed):
     r = Rng(seed)
     try:
         q = tier == "quick"
-        layer_twin(ck, r, 190 if q else 1800, 30 if q else 40)
+        layer_twin(ck, r, 150 if q else 1800, 30 if q else 40)
         layer_programs(ck, r, 80 if q else 1000, 16 if q else 30)
         layer_script_cache(ck, r)
         layer_refused(ck)
         layer_sandbox(ck)
         layer_atomic(ck, 3, 150 if q else 1500)
         layer_crash_witness(ck)
-        if ck.facts.get("time_limit") is False:
-            ck.note_known("static:no-script-time-limit", {"script": "while true do end (never sent)"})
+        layer_time_limit(ck)
         rep.extra["conversion_switches_seen_in_source"] = ck.quirks
         verdict(ck, ok, log, errs)
     finally:
